@@ -23,7 +23,7 @@ ASSUMPTIONS = [
     "are not modelled (sampled by the oracle only)",
     "int(): modelled on the class [+-]?[0-9]+ and on strings containing an ASCII letter or "
     "punctuation (rejected); whitespace/underscore/non-ASCII-digit spellings are outside the model",
-    "dates: modelled in Model/TsdbDate.v when present in the Props file; otherwise oracle-only",
+    "dates are decided by the oracle only (cast(format(v)) = v for dates and date-times at second resolution, years 1000-9999; no date model)",
 ]
 TRUSTED = ["Tie A translator harness/translate/tsdb_gen.py (escape chain, unescape table, "
            "FIELD_DELIMITER, TSDB_CODED_ATTRIBUTES regenerated from the source on every run)"]
@@ -134,6 +134,18 @@ def gen(rng, tier):
     for n in FIELD_NAMES:
         for dt in DT:
             cases.append({"k": "default", "name": n, "dt": dt})
+    # dates and date-times at second resolution (oracle only): every combination of zero and
+    # non-zero hour/minute/second on boundary days, and random ones
+    days = [(1000, 1, 1), (1999, 12, 31), (2000, 2, 29), (2018, 2, 1), (9999, 12, 31), (2024, 7, 4)]
+    for (y, mo, d) in days:
+        for h in (0, 7, 23):
+            for mi in (0, 5, 59):
+                for sec in (0, 1, 59):
+                    cases.append({"k": "fdate", "ymd": [y, mo, d], "hms": [h, mi, sec]})
+        cases.append({"k": "fdate", "ymd": [y, mo, d], "hms": None})
+    for _ in range(nrand // 10):
+        cases.append({"k": "fdate", "ymd": [rng.randrange(1000, 10000), rng.randrange(1, 13), rng.randrange(1, 29)],
+                      "hms": [rng.randrange(0, 24), rng.randrange(0, 60), rng.randrange(0, 60)]})
     for _ in range(nrand // 2):
         nf = rng.randrange(1, 5)
         fs = _rand_fields(rng, nf)
@@ -159,7 +171,7 @@ def nontrivial(c):
         return any(v in (None, "") or any(ch in v for ch in "\\@\n") for v in c["vs"])
     if k == "cast":
         return bool(c["raw"])
-    if k == "format":
+    if k in ("format", "fdate"):
         return True
     if k in ("rowint", "rowslice", "rowname", "rowiter", "joint"):
         return True
@@ -184,9 +196,18 @@ def _fields(fs):
     return [tsdb.Field(n, dt) for n, dt in fs]
 
 
+def _fdate_value(c):
+    import datetime
+    if c["hms"] is None:
+        return datetime.date(*c["ymd"])
+    return datetime.datetime(*(c["ymd"] + c["hms"]))
+
+
 def observe(c):
     from delphin import tsdb, itsdb
     k = c["k"]
+    if k == "fdate":
+        return {"r": tsdb.format(":date", _fdate_value(c))}
     try:
         if k == "escape":
             return {"r": tsdb.escape(c["s"])}
@@ -271,6 +292,19 @@ def oracle(c):
             got = tsdb.split(line + tail)
             if got != want:
                 return "split(join(%r)%r) = %r" % (vs, tail, got)
+        return None
+    if k == "fdate":
+        import datetime
+        v = _fdate_value(c)
+        want = v if isinstance(v, datetime.datetime) else datetime.datetime(v.year, v.month, v.day)
+        text = tsdb.format(":date", v)
+        got = tsdb.cast(":date", text)
+        if got != want:
+            return "cast(':date', format(':date', %r)) = %r (text %r)" % (v, got, text)
+        fs = [tsdb.Field("i-id", ":integer"), tsdb.Field("i-date", ":date")]
+        back = tsdb.split(tsdb.join([1, v], fs), fs)
+        if back != (1, want):
+            return "split(join([1, %r])) = %r" % (v, back)
         return None
     if k == "format":
         if c["dt"] == ":integer" and isinstance(c["v"], int):
@@ -360,6 +394,8 @@ def _res(o, f):
 
 def coq_case(c, o):
     k = c["k"]
+    if k == "fdate":
+        return None          # dates are decided by the oracle (no date model)
     if k == "escape":
         return app("CEscape", cstr(c["s"]), cstr(o["r"]))
     if k == "unescape":
@@ -408,6 +444,6 @@ LEVEL_TEXT = ("Proof (Coq 8.16, kernel-checked, no axioms): escape/unescape mutu
               "Partial: the float clause rests on float(repr(x))==x; date clause see level_note.")
 LEVEL_NOTE = ("Trusted: Coq kernel + vm_compute; the hand model of split/join/cast/format/Row validated "
               "by correspondence; int() modelled on [+-]?[0-9]+ only; floats not modelled (language "
-              "guarantee, oracle-sampled); dates oracle-sampled unless listed among the theorems.")
+              "guarantee, oracle-sampled); dates (second resolution, years 1000-9999) are decided by the oracle, not modelled.")
 TECHNIQUE = "Coq proof over executable Gallina model + regenerated kernels + kernel-checked correspondence"
 DESIGN_REF = "DESIGN.md section 6, C08"
